@@ -20,17 +20,32 @@ db=':memory:'), so tdda's own REGEXP function is installed):
                                                       a failure
   trans 3   verify_db_table on the restored table     oracle: as trans 1
 
+Every history is executed in a child forked from the worker's pristine image
+(tdda imported, never called), so a case never sees state left by another
+case and a replay in a fresh process sees exactly what the explorer saw.
+Dependence on what the process did BEFORE is explored explicitly by the
+`same-name` layers: table t with layout A is discovered and verified, then a
+differently laid-out (or differently filled) table with the same name t - in
+a new in-memory database, or after DROP TABLE / CREATE TABLE in the same one -
+goes through the full history; differential oracle: every observation
+(discovered constraints, closure verdicts, the verdict of every perturbation)
+equals the observation of that last table run from a fresh state.
+
 Other verdicts after a perturbation are unconstrained.  Perturbations whose
 effect the documentation leaves open are executed but only counted
 (unspecified).
 """
 import contextlib
+import gc
 import io
 import itertools
 import json
 import os
+import pickle
 import shutil
 import tempfile
+import traceback
+import warnings
 
 from mc.engine import Check, Res
 from mc.models import db_spec
@@ -69,6 +84,38 @@ NAMEPAIRS_Q = [('c', 'my col'), ('É', 'é')]
 NAMEPAIRS_T = [('c', 'my col'), ('É', 'é'), ('select', 'c'), ('é', 'my col')]
 
 
+def _t(cols, rows):
+    return {'cols': [list(c) for c in cols], 'rows': [list(r) for r in rows]}
+
+
+# tables (all called t) for the same-name histories: every pair differs in
+# column names, declared types, column order, or only in the data
+HIST_TABLES_Q = [
+    _t([('c', 'INTEGER')], [[1], [3]]),
+    _t([('c', 'TEXT')], [['a'], ['B1']]),
+    _t([('c', 'REAL')], [[-1.5]]),
+    _t([('c', 'DATETIME')], [[D1]]),
+    _t([('c', 'BOOLEAN')], [[True]]),
+    _t([('my col', 'INTEGER')], [[0]]),
+    _t([('c', 'INTEGER'), ('d', 'TEXT')], [[1, 'a']]),
+    _t([('c', 'TEXT'), ('d', 'INTEGER')], [['a', 1]]),
+    _t([('d', 'TEXT'), ('c', 'INTEGER')], [['a', 1]]),
+    _t([('d', 'TEXT')], [["o'q"]]),
+    _t([('c', 'INTEGER')], [[3], [None]]),
+    _t([('c', 'TEXT')], []),
+]
+HIST_TABLES_T = HIST_TABLES_Q + [
+    _t([('c', 'VARCHAR(10)')], [['a']]),
+    _t([('é', 'TEXT')], [['é²']]),
+    _t([('c', 'INTEGER')], []),
+    _t([('c', 'TEXT')], [['a'], ['a'], [None]]),
+    _t([('c', 'REAL'), ('d', 'REAL')], [[2.0, -1.5], [None, 2.5]]),
+    _t([('select', 'BOOLEAN')], [[False], [True]]),
+]
+HIST_MODES_Q = ['new-db', 'drop-create']
+HIST_MODES_T = ['new-db', 'drop-create', 'new-db-open']
+
+
 def columns(alpha, maxrows):
     for n in range(maxrows + 1):
         for t in itertools.product(alpha, repeat=n):
@@ -103,7 +150,12 @@ class C08(Check):
             'that the model says breaks a discovered constraint; '
             'non-trivial = discovery produced a constraint besides type and '
             'at least one must-fail perturbation was executed, or tdda '
-            'raised')
+            'raised; same-name layers: every ordered pair (thorough: also '
+            'A,B,A triples) of 12 (thorough 18) tables named t differing in '
+            'column names, types, order or only data x {new database, '
+            'DROP+CREATE (thorough: + first connection left open)} x rex '
+            'off/on, compared observation by observation with the last '
+            'table run from a fresh process image')
     assumptions = [
         'SQLite only (in-memory database through tdda\'s own connector); '
         'table name fixed to "t"; column names never contain a double quote '
@@ -122,6 +174,9 @@ class C08(Check):
         'listed alphabets; thorough adds 14 further strings (rexpy defect '
         'F04 of C03 surfaces through the rex closure there: examples "-" '
         'and "^" give ^[^-]$)',
+        'process state: each history runs in a child forked from an image '
+        'that has imported tdda and never called it; histories of more than '
+        'one table are bounded to 2 (thorough 3) same-named tables',
         'violation signatures name the features whose removal makes the '
         'symptom vanish (re-execution of reduced cases), not the exception '
         'text',
@@ -139,7 +194,12 @@ class C08(Check):
              ('names', 'one column, the three other names'),
              ('two-col', 'two columns: type pairs x reduced alphabets x '
                          'name pairs')]
+        L.append(('same-name', 'histories of differently laid-out tables '
+                               'with the same name in one process (new '
+                               'database / DROP+CREATE): last step equals '
+                               'the same step from a fresh state'))
         if tier == 'thorough':
+            L.append(('same-name-3', 'the same with three tables A, B, A'))
             L.append(('text-extra', 'one TEXT column over the extended '
                                     'string alphabet, 0..2 rows'))
             L.append(('one-col-4', 'one column, exactly 4 rows (numeric, '
@@ -187,6 +247,23 @@ class C08(Check):
                                     yield {'cols': [[na, da], [nb, db_]],
                                            'rows': [list(r) for r in rows],
                                            'rex': rex}
+        elif layer in ('same-name', 'same-name-3'):
+            specs = HIST_TABLES_T if thorough else HIST_TABLES_Q
+            modes = HIST_MODES_T if thorough else HIST_MODES_Q
+            for a in specs:
+                for b in specs:
+                    if a is b:
+                        continue
+                    for mode in modes:
+                        for rex in (False, True):
+                            if layer == 'same-name':
+                                yield {'hist': [['new-db', a]], 'mode': mode,
+                                       'cols': b['cols'], 'rows': b['rows'],
+                                       'rex': rex}
+                            else:
+                                yield {'hist': [['new-db', a], [mode, b]],
+                                       'mode': mode, 'cols': a['cols'],
+                                       'rows': a['rows'], 'rex': rex}
         elif layer == 'one-col-4':
             for decl in ('INTEGER', 'REAL', 'BOOLEAN', 'DATETIME', 'TEXT'):
                 alpha = ALPHA[decl] if decl != 'TEXT' \
@@ -207,7 +284,16 @@ class C08(Check):
     # ------------------------------------------------------------ worker
 
     def setup_worker(self, tier):
+        # The worker itself only IMPORTS tdda; every execution of tdda code
+        # happens in a child forked from this pristine image (see fresh()),
+        # so no case can see state left behind by another case.  BLAS/OpenMP
+        # helper threads are switched off before numpy is imported so that
+        # the process is single-threaded when it forks.
+        for k in ('OPENBLAS_NUM_THREADS', 'OMP_NUM_THREADS',
+                  'MKL_NUM_THREADS', 'NUMEXPR_NUM_THREADS'):
+            os.environ.setdefault(k, '1')
         self.tier = tier
+        self.obs = []
         self.sandbox = tempfile.mkdtemp(prefix='tdda_mc_c08_', dir='/var/tmp')
         self.path = os.path.join(self.sandbox, 'c.tdda')
         from tdda.constraints.db.drivers import database_connection
@@ -221,6 +307,8 @@ class C08(Check):
             self.rexpy = rx
         except Exception:
             self.rexpy = None
+        gc.collect()
+        gc.freeze()              # keep the imported heap out of child GCs
 
     def teardown_worker(self):
         sb = getattr(self, 'sandbox', None)
@@ -240,6 +328,65 @@ class C08(Check):
             raise
         except BaseException as e:          # incl. SystemExit from tdda
             return None, e
+
+    def fresh(self, fn, *args):
+        """Run fn(*args) in a child forked from the pristine worker image and
+        return its (picklable) result.  This is what makes every history
+        start from the state "tdda imported, never called", in the explorer
+        and in a replay alike: module- or class-level state that tdda keeps
+        between calls can only influence what follows it INSIDE one history,
+        where the check controls and records it."""
+        r, w = os.pipe()
+        with warnings.catch_warnings():
+            warnings.simplefilter('ignore')
+            pid = os.fork()
+        if pid == 0:
+            code = 0
+            try:
+                gc.disable()     # short-lived: do not touch (copy) the heap
+                os.close(r)
+                try:
+                    payload = ('ok', fn(*args))
+                except BaseException as e:
+                    from mc.engine import _origin_of
+                    payload = ('exc', _origin_of(e), type(e).__name__,
+                               repr(e)[:300],
+                               ''.join(traceback.format_exception(
+                                   type(e), e, e.__traceback__))[-3000:])
+                with os.fdopen(w, 'wb') as f:
+                    f.write(pickle.dumps(payload))
+            except BaseException:
+                code = 3
+            finally:
+                os._exit(code)
+        os.close(w)
+        with os.fdopen(r, 'rb') as f:
+            data = f.read()
+        os.waitpid(pid, 0)
+        if not data:
+            raise RuntimeError('harness: forked child returned nothing')
+        payload = pickle.loads(data)
+        if payload[0] == 'ok':
+            return payload[1]
+        _, origin, tname, rep, tb = payload
+        if origin == 'tdda':
+            # tdda code raised outside self.call(): treat like the engine does
+            R = Res()
+            R.ev()
+            R.nontrivial = True
+            R.out('uncaught:%s' % tname)
+            found = [{'sym': ('uncaught', tname), 'col': None,
+                      'clause': 'no-internal-error',
+                      'detail': {'exception': rep, 'traceback': tb},
+                      'sub': None}]
+            return found, R, [('uncaught', tname)]
+        raise RuntimeError('harness error in forked child:\n%s' % tb)
+
+    def child_history(self, steps, rex, upto=None):
+        R = Res()
+        self.obs = []
+        found = self.history(R, steps, rex, upto)
+        return found, R, self.obs
 
     # ---- root-cause attribution by reduction ---------------------------
     #
@@ -309,8 +456,8 @@ class C08(Check):
         upto = 'verify' if sym[0] in ('discover-raises', 'discover-none',
                                       'verify-raises', 'verify-fails') \
             else None
-        R = Res()
-        found = self.history(R, case, upto=upto)
+        found, _, _ = self.fresh(self.child_history, [['new-db', case]],
+                                 case['rex'], upto)
         return any(f['sym'] == sym for f in found)
 
     def blame(self, case, finding):
@@ -360,10 +507,51 @@ class C08(Check):
     # ------------------------------------------------------------ run
 
     def run_case(self, case):
-        R = Res()
-        found = self.history(R, case)
+        if 'hist' in case:
+            return self.run_hist_case(case)
+        found, R, _ = self.fresh(self.child_history, [['new-db', case]],
+                                 case['rex'])
         for f in found:
             R.viol(self.blame(case, f), f['clause'], f['detail'], f['sub'])
+        return R
+
+    def run_hist_case(self, case):
+        """E3 history of same-named tables in one process, differential
+        oracle: what tdda does with the LAST table must equal what it does
+        with that table from a fresh state."""
+        last = {'cols': case['cols'], 'rows': case['rows'],
+                'rex': case['rex']}
+        steps = [list(st) for st in case['hist']] + [[case['mode'], last]]
+        _, R, obs_h = self.fresh(self.child_history, steps, case['rex'])
+        _, R2, obs_f = self.fresh(self.child_history, [['new-db', last]],
+                                  case['rex'])
+        R.evals += R2.evals
+        R.transitions += R2.transitions
+        R.states += R2.states
+        R.checked = len(obs_f)
+        R.unspec = 0
+        R.outcomes.clear()
+        R.nontrivial = True
+        k = 0
+        while k < len(obs_h) and k < len(obs_f) and obs_h[k] == obs_f[k]:
+            k += 1
+        if k == len(obs_h) == len(obs_f):
+            R.out('hist:%s:same-as-fresh:%s' % (case['mode'], obs_f[0][0]
+                                                if obs_f else '-'))
+            return R
+        a = obs_h[k] if k < len(obs_h) else None
+        b = obs_f[k] if k < len(obs_f) else None
+        aspect = (a or b)[0]
+        if a is not None and b is not None and a[0] != b[0]:
+            aspect = b[0]
+        R.out('hist:%s:differs:%s' % (case['mode'], aspect))
+        R.viol('history-dependent:%s:%s' % (case['mode'], aspect),
+               'same-result-as-from-fresh-state',
+               {'case': case, 'first_difference_at': k,
+                'after_history': a, 'from_fresh_state': b,
+                'expected': 'discovery/verification of a table do not '
+                            'depend on tables seen earlier in the process'},
+               None)
         return R
 
     def closure(self, R, found, case, fields, db, phase):
@@ -371,6 +559,7 @@ class C08(Check):
         v, e = self.call(self.verify, 'sqlite', db, 't', self.path)
         R.ev()
         if e is not None:
+            self.obs.append((phase, 'raise', type(e).__name__))
             R.out('raise:%s:%s' % (phase, type(e).__name__))
             found.append({
                 'sym': ('%s-raises' % phase, type(e).__name__), 'col': None,
@@ -383,6 +572,7 @@ class C08(Check):
             for kind, verdict in fr.items():
                 if verdict is not None and not verdict:
                     bad.append((name, kind))
+        self.obs.append((phase, v.failures, sorted(bad)))
         if v.failures != 0 or bad:
             names = [c[0] for c in case['cols']]
             for (name, kind) in bad or [(None, 'count')]:
@@ -400,31 +590,68 @@ class C08(Check):
                                'failed': bad}, 'sub': phase})
         return v
 
-    def history(self, R, case, upto=None):
-        """Build state 0 and run the transitions; returns raw findings."""
-        cols, rows = case['cols'], case['rows']
+    def history(self, R, steps, rex, upto=None):
+        """steps = [[mode, table], ...]: build each table (always called t)
+        in turn - mode 'new-db': close the previous connection and open a new
+        in-memory database; 'new-db-open': the same but the previous
+        connection stays open; 'drop-create': DROP TABLE t and re-create it
+        in the same database.  Tables before the last one are only discovered
+        and verified (results ignored); the last one gets the full
+        exploration.  Returns the raw findings about the last table."""
         if self.rexpy is not None and hasattr(self.rexpy, 'memo'):
             try:
                 self.rexpy.memo.clear()
             except Exception:
                 pass
-        if os.path.exists(self.path):
-            os.remove(self.path)
         found = []
-        db = self.connect(dbtype='sqlite', db=':memory:')
-        conn = db.connection
+        conns = []
+        db = conn = cur = None
         try:
-            cur = conn.cursor()
-            cur.execute('CREATE TABLE t (%s)' % ', '.join(
-                '"%s" %s' % (n, d) for (n, d) in cols))
-            ins = 'INSERT INTO t VALUES (%s)' % ', '.join('?' * len(cols))
-            for r in rows:
-                cur.execute(ins, tuple(r))
-            conn.commit()
-            R.states = 1
-            self.explore(R, found, case, db, conn, cur, ins, upto)
+            for k, (mode, tab) in enumerate(steps):
+                lastone = k == len(steps) - 1
+                cols, rows = tab['cols'], tab['rows']
+                if os.path.exists(self.path):
+                    os.remove(self.path)
+                if conn is not None and mode == 'drop-create':
+                    cur.execute('DROP TABLE t')
+                    conn.commit()
+                else:
+                    if conn is not None and mode != 'new-db-open':
+                        conn.close()
+                    db = self.connect(dbtype='sqlite', db=':memory:')
+                    conn = db.connection
+                    conns.append(conn)
+                    cur = conn.cursor()
+                cur.execute('CREATE TABLE t (%s)' % ', '.join(
+                    '"%s" %s' % (n, d) for (n, d) in cols))
+                ins = 'INSERT INTO t VALUES (%s)' % ', '.join(
+                    '?' * len(cols))
+                for r in rows:
+                    cur.execute(ins, tuple(r))
+                conn.commit()
+                R.states += 1
+                if lastone:
+                    case = dict(tab)
+                    case['rex'] = rex
+                    self.explore(R, found, case, db, conn, cur, ins, upto)
+                else:
+                    cons, e = self.call(self.discover, 'sqlite', db, 't',
+                                        inc_rex=rex)
+                    R.ev()
+                    if e is None and cons is not None:
+                        js, e = self.call(cons.to_json)
+                        if e is None:
+                            with open(self.path, 'w', encoding='utf-8') as f:
+                                f.write(js)
+                            self.call(self.verify, 'sqlite', db, 't',
+                                      self.path)
+                            R.ev()
         finally:
-            conn.close()
+            for c in conns:
+                try:
+                    c.close()
+                except Exception:
+                    pass
         return found
 
     def explore(self, R, found, case, db, conn, cur, ins, upto):
@@ -435,6 +662,7 @@ class C08(Check):
         fields = None
         if e is None:
             if cons is None:
+                self.obs.append(('discover', 'none'))
                 R.out('discover:none')
                 found.append({
                     'sym': ('discover-none',), 'col': None,
@@ -449,6 +677,7 @@ class C08(Check):
                     f.write(js)
                 fields = json.loads(js).get('fields') or {}
         if e is not None:
+            self.obs.append(('discover', 'raise', type(e).__name__))
             R.nontrivial = True
             R.out('raise:discover:%s' % type(e).__name__)
             found.append({
@@ -457,6 +686,7 @@ class C08(Check):
                 'detail': {'case': case, 'exception': repr(e)[:300]},
                 'sub': 'discover'})
             return
+        self.obs.append(('fields', fields))
         for (n, d) in cols:
             R.out('disc:%s:%s' % (db_spec.family_of(d),
                                   ','.join(sorted(fields.get(n, {})))))
@@ -496,6 +726,13 @@ class C08(Check):
                 if cur.fetchall()[0][0] != nrows:
                     raise RuntimeError('harness: perturbing row not removed')
                 sub = {'column': name, 'perturbation': p.as_dict()}
+                if e2 is not None:
+                    seen = 'raise:%s' % type(e2).__name__
+                else:
+                    fr0 = v2.fields.get(name)
+                    vd0 = fr0.get(p.target) if fr0 is not None else None
+                    seen = None if vd0 is None else bool(vd0)
+                self.obs.append(('perturbation', i, p.target, p.pid, seen))
                 if p.verdict != db_spec.MUST_FAIL:
                     n_unspec += 1
                     R.unspec += 1
